@@ -50,7 +50,7 @@ RECURSIVE TyKey(_)
 RECURSIVE JoinKeys(_, _)
 JoinKeys(ts, i) == IF i > Len(ts) THEN "" ELSE (IF i > 1 THEN "," ELSE "") \o TyKey(ts[i]) \o JoinKeys(ts, i + 1)
 TyKey(ty) ==
-  CASE ty.t = "adt" -> IF ty.as = <<>> THEN ty.n ELSE ty.n \o "[" \o JoinKeys(ty.as, 1) \o "]"
+  CASE ty.t = "adt" -> IF ty.as = <<>> THEN "%" \o ty.n ELSE "%" \o ty.n \o "[" \o JoinKeys(ty.as, 1) \o "]"     \* % marks user types (a struct may be named int32)
     [] ty.t = "tuple" -> "(" \o JoinKeys(ty.ts, 1) \o ")"
     [] ty.t = "vec" -> "Vec[" \o TyKey(ty.e) \o "]"
     [] ty.t = "ref" -> "Ref[" \o TyKey(ty.e) \o "]"
